@@ -45,6 +45,8 @@ pub struct Script {
     pub call_thr_scale: bool,
     /// Scale sizes by 1 + (per-thread call ordinal % this) so that samples differ in their figures (0 = off).
     pub call_var: u64,
+    /// Run the call script only during the first N calls of a thread (0 = always): lazy initialisation / warm-up.
+    pub call_only_first: u64,
     pub call_free: bool,
     pub drop_alloc_n: u64,
     pub drop_alloc_size: u64,
@@ -82,6 +84,7 @@ impl Script {
             call_ops: Vec::new(),
             call_thr_scale: c.u64("cathr", 0) != 0,
             call_var: c.u64("cavar", 0),
+            call_only_first: c.u64("caonly", 0),
             call_free: c.u64("cafree", 1) != 0,
             drop_alloc_n: c.u64("dan", 0),
             drop_alloc_size: c.u64("dasz", 16),
@@ -260,7 +263,7 @@ fn churn(n: u64, size: u64) {
 /// Executes the scripted allocator traffic of one call.
 fn call_allocs(ord: u64) {
     let s = script();
-    if s.call_ops.is_empty() {
+    if s.call_ops.is_empty() || (s.call_only_first > 0 && ord >= s.call_only_first) {
         return;
     }
     let mut scale = if s.call_thr_scale { evlog::kidx() as u64 + 1 } else { 1 };
